@@ -2,31 +2,51 @@
 from __future__ import annotations
 
 import asyncio
+import collections
+import itertools
 import json
 import re
 import struct
+import traceback
+from unittest.mock import MagicMock
 
+from cryptography.hazmat.primitives.asymmetric import ed25519
 from cryptography.hazmat.primitives.ciphers.aead import ChaCha20Poly1305
 
-from harness import simnet
+from harness import refacc, simnet
+from harness.acc import Accessory
 from harness.common import Ctx, Driver, compare_with_model, hx, load_corpus
 
 import aiohomekit.controller.ip.connection as ipc
 from aiohomekit import hkjson
+from aiohomekit.characteristic_cache import CharacteristicCacheMemory
+from aiohomekit.controller.ip.discovery import IpDiscovery
 from aiohomekit.controller.ip.pairing import IpPairing
 from aiohomekit.http import HttpContentTypes
 from aiohomekit.model import Accessories, AccessoriesState
+from aiohomekit.model.categories import Categories
 from aiohomekit.model.characteristics import CharacteristicsTypes
+from aiohomekit.model.feature_flags import FeatureFlags
 from aiohomekit.model.services import ServicesTypes
+from aiohomekit.model.status_flags import StatusFlags
+from aiohomekit.zeroconf import HomeKitService
 
 ID = "C09"
 RULE = ("raw get/put/post and the pairing API (get/put characteristics, subscribe/unsubscribe, identify, list/add/remove pairings, list accessories) x hosts {IPv4, IPv6, scoped IPv6} x "
         "plain and encrypted sessions x id sets 1..8 x payload shapes; JSON bodies of nested values incl. unicode/escaped strings, 64-bit ints, bools, null. "
+        "post_json/put_json/post_tlv with every empty/falsy and random document ({} [] 0 \"\" false null ...): the body is the stdlib-compact / reference-TLV encoding of the document given; "
+        "the pairing API driven with every kind of Iterable the type hints admit (list, tuple, deque, dict, dict view, set, frozenset, plain iterable object, generator, iter(), map, zip, "
+        "reversed, chain, hand-written iterator): same bytes as for the equivalent list, every id/value exactly once; end to end: the real IpPairing(SecureHomeKitConnection) and "
+        "IpDiscovery against a reference accessory - pair-verify, re-subscription after a reconnect, remove_pairing, get_primary_name/populate, unpaired identify, pair-setup M1/M3/M5. "
         "non-trivial = distinct (entry point, host kind, secure?, body kind)")
 TRUSTED = ["orjson (compact output is checked structurally and by re-parsing, not modelled)", "cryptography ChaCha20Poly1305 to read the controller's encrypted frames"]
 ASSUMPTIONS = ["'only when there is a body' is read at the API the library exposes: get passes no body and emits neither header; put/post always pass one and emit both. "
                "put(target, b'') (not reachable through the pairing API) emits Content-Length: 0 + Content-Type - run on this tree and reported in notes, outside the theorem's scope",
-               "single *call* to the transport is checked; single syscall/packet is asyncio's and the OS's business"]
+               "single *call* to the transport is checked; single syscall/packet is asyncio's and the OS's business",
+               "a JSON document always has a non-empty encoding, so post_json/put_json must carry the compact encoding of the document they were given even when it is {} / [] / 0 / \"\" / false / null "
+               "(reference: the standard library's encoder with compact separators, on a domain where it and orjson agree: no floats beyond short decimals, ints within 64 bits)",
+               "subscribe/unsubscribe with a ONE-PASS iterable (generator, iter(), map, zip...) put nothing on the wire on this tree (the argument is walked more than once): recorded in notes and the "
+               "distribution, not judged - no request is written, so no written request is out of form; with re-iterable arguments of every kind every id must reach the wire exactly once"]
 EXPLANATION = "Lean theorems C09_* (request bytes = iOS spec form for all targets/hosts/bodies); differential tie through the real HomeKitConnection/IpPairing on an in-memory transport"
 
 HOSTS = ["10.0.0.7", "192.168.1.250", "fe80::1%eth0", "2001:db8::42", "::1"]
@@ -39,10 +59,11 @@ def nonce(c):
 class Rig:
     """a real HomeKitConnection connected over simnet; optionally switched to the real SecureHomeKitProtocol"""
 
-    def __init__(self, loop, host, secure):
+    def __init__(self, loop, host, secure, port=80):
         self.loop = loop
         self.net = simnet.Net(loop)
         self.host = host
+        self.port = port
         self.secure = secure
         self.requests = []  # (decoded request bytes, number of transport calls used)
         self.responder = None
@@ -58,7 +79,7 @@ class Rig:
 
     async def connect(self):
         with self.net.patched():
-            self.conn = ipc.HomeKitConnection(None, [self.host], 80)
+            self.conn = ipc.HomeKitConnection(None, [self.host], self.port)
             await self.conn._connect_once()
         if self.secure:
             t = self.conn.transport
@@ -120,15 +141,20 @@ def http(body, ctype=b"application/hap+json", code=b"200 OK"):
     return b"HTTP/1.1 " + code + b"\r\nContent-Type: " + ctype + b"\r\nContent-Length: %d\r\n\r\n" % len(body) + body
 
 
+PAIRINGS_REPLY = bytes([6, 1, 2, 1, 3]) + b"ctl" + bytes([3, 32]) + bytes(32) + bytes([11, 1, 1])
+JSON_CT = "application/hap+json"
+TLV_CT = "application/pairing+tlv8"
+
+
 def responder(req: bytes) -> bytes:
     line = req.split(b"\r\n", 1)[0]
     if line.startswith(b"GET /characteristics"):
         return http(b'{"characteristics":[]}')
     if line.startswith(b"GET /accessories"):
         return http(b'{"accessories":[]}')
-    if line.startswith(b"POST /pairings"):
-        return http(bytes([6, 1, 2, 1, 3]) + b"ctl" + bytes([3, 32]) + bytes(32) + bytes([11, 1, 1]), b"application/pairing+tlv8")
-    if line.startswith(b"PUT"):
+    if line.startswith(b"POST /pairings") or (line.startswith(b"POST") and b"\r\nContent-Type: application/pairing+tlv8\r\n" in req.split(b"\r\n\r\n", 1)[0] + b"\r\n"):
+        return http(PAIRINGS_REPLY, b"application/pairing+tlv8")
+    if line.startswith(b"PUT") or line.startswith(b"POST /identify"):
         return b"HTTP/1.1 204 No Content\r\n\r\n"
     return http(b"{}")
 
@@ -175,6 +201,73 @@ def ws_outside_strings(b: bytes) -> bool:
     return False
 
 
+def ref_json(v) -> bytes:
+    """the compact rendering of a JSON document, written by the standard library (nothing of hkjson / orjson).
+    Domain used: dicts with string keys, lists, strings, ints in [-2^63, 2^64), bools, null, short decimal floats"""
+    return json.dumps(v, separators=(",", ":"), ensure_ascii=False).encode("utf-8")
+
+
+# JSON documents that are empty or falsy in Python - each still has a non-empty encoding - and their smallest truthy neighbours
+SMALL_DOCS = [{}, [], 0, "", False, None, 0.0, [{}], [[]], {"": None}, [0], [""], [False], [None], 1, True, "0", " ", {"characteristics": []}]
+
+
+class Reiter:
+    """an Iterable that is neither a Sequence nor a Set: only __iter__, a fresh iterator every time"""
+
+    def __init__(self, items):
+        self._items = list(items)
+
+    def __iter__(self):
+        return iter(self._items)
+
+
+class OneShot:
+    """a hand-written iterator: exhausted after one pass"""
+
+    def __init__(self, items):
+        self._it = iter(list(items))
+
+    def __iter__(self):
+        return self
+
+    def __next__(self):
+        return next(self._it)
+
+
+def _generator(items):
+    yield from items
+
+
+# every way a caller may hand "an Iterable of tuples" to the pairing API: (name, constructor from a list of distinct tuples, keeps the order?, one pass only?)
+KINDS = [
+    ("list", list, True, False),
+    ("tuple", tuple, True, False),
+    ("deque", collections.deque, True, False),
+    ("dict", dict.fromkeys, True, False),
+    ("dict-keys", lambda l: dict.fromkeys(l).keys(), True, False),
+    ("dict-values", lambda l: dict(enumerate(l)).values(), True, False),
+    ("iterable-object", Reiter, True, False),
+    ("set", set, False, False),
+    ("frozenset", frozenset, False, False),
+    ("generator-expression", lambda l: (x for x in l), True, True),
+    ("generator-function", _generator, True, True),
+    ("iter", iter, True, True),
+    ("map", lambda l: map(tuple, l), True, True),
+    ("zip", lambda l: zip(*[[x[k] for x in l] for k in range(len(l[0]))]), True, True),
+    ("reversed", lambda l: reversed(l[::-1]), True, True),
+    ("chain", lambda l: itertools.chain(l[:1], l[1:]), True, True),
+    ("iterator-object", OneShot, True, True),
+]
+WRITE_VALUES = [True, False, 0, 1, 255, -1, 2 ** 31, 21.5, 0.5, "on", "a b", "\u00fc\u00f1", None, "AQID" * 400]  # the last one: a write that needs two encrypted frames
+
+
+def accessory_list(layout):
+    return [{"aid": aid, "services": [{"iid": 1, "type": ServicesTypes.ACCESSORY_INFORMATION, "characteristics": [{"iid": 2, "type": CharacteristicsTypes.IDENTIFY, "perms": ["pw"], "format": "bool"},
+                                                                                                                 {"iid": 3, "type": CharacteristicsTypes.NAME, "perms": ["pr"], "format": "string", "value": f"acc {aid}"}]},
+                                      {"iid": 1000, "type": ServicesTypes.LIGHTBULB, "characteristics": [{"iid": iid, "type": CharacteristicsTypes.ON, "perms": ["pr", "pw", "ev"], "format": "bool", "value": False} for iid in iids]}]}
+            for aid, iids in layout.items()]
+
+
 def mk_pairing(conn, layout):
     p = IpPairing.__new__(IpPairing)
 
@@ -182,9 +275,7 @@ def mk_pairing(conn, layout):
         return None
     p._ensure_connected = noop
     p.connection = conn
-    lst = [{"aid": aid, "services": [{"iid": 1, "type": ServicesTypes.ACCESSORY_INFORMATION, "characteristics": [{"iid": 2, "type": CharacteristicsTypes.IDENTIFY, "perms": ["pw"], "format": "bool"}]},
-                                     {"iid": 1000, "type": ServicesTypes.LIGHTBULB, "characteristics": [{"iid": iid, "type": CharacteristicsTypes.ON, "perms": ["pr", "pw", "ev"], "format": "bool", "value": False} for iid in iids]}]}
-           for aid, iids in layout.items()]
+    lst = accessory_list(layout)
     p._accessories_state = AccessoriesState(Accessories.from_list(lst), 1, None, 0)
     p.listeners = set()
     p.subscriptions = set()
@@ -192,8 +283,6 @@ def mk_pairing(conn, layout):
     p.pairing_data = {"AccessoryPairingID": "AA:BB:CC:DD:EE:FF", "iOSPairingId": "ctl"}
     p.id = "aa:bb:cc:dd:ee:ff"
     p._shutdown = False
-    from unittest.mock import MagicMock
-    from aiohomekit.characteristic_cache import CharacteristicCacheMemory
     p.controller = MagicMock()
     p.controller._char_cache = CharacteristicCacheMemory()
     p.description = None
@@ -202,18 +291,12 @@ def mk_pairing(conn, layout):
     return p
 
 
-def run(ctx: Ctx, driver: Driver):
-    rng = ctx.rng
-    loop = simnet.VLoop()
-    asyncio.set_event_loop(loop)
-    for c in load_corpus(ID):
-        pass
-    cases, outs, lines = [], [], []
-
-    def check(kind, host, secure, req, ncalls, method, target, ctype, body, to_model=True):
+def make_check(ctx, cases, outs, lines):
+    def check(kind, host, secure, req, ncalls, method, target, ctype, body, to_model=True, case=None):
         """req = bytes the accessory decoded; (method, target, ctype, body) = what the caller asked for"""
         ctx.evaluations += 1
-        case = {"stream": "request", "kind": kind, "host": host, "secure": secure, "method": method, "target": target, "body": hx(body) if body is not None else None}
+        if case is None:
+            case = {"stream": "request", "kind": kind, "host": host, "port": check.port, "secure": secure, "method": method, "target": target, "body": hx(body) if body is not None else None}
         want = spec_request(method, target, host, ctype, body)
         ctx.nontrivial.add((kind, ":" in host, "%" in host, secure, body is None, len(body or b"") > 1024))
         if req != want:
@@ -228,11 +311,431 @@ def run(ctx: Ctx, driver: Driver):
             else:
                 lines.append(f"rq.body {hx(method.encode())} {hx(target.encode())} {hx(host.encode())} {hx(ctype.encode())} {hx(body)}")
         ctx.dist[f"request:{kind}"] += 1
+    check.port = 80  # the TCP port of the scenario under way (recorded in the cases; it must never show in a request)
+    return check
 
-    async def scenario(host, secure):
-        rig = Rig(loop, host, secure)
+
+def body_of(req: bytes) -> bytes:
+    return req.split(b"\r\n\r\n", 1)[1] if b"\r\n\r\n" in req else b""
+
+
+def target_of(req: bytes) -> str:
+    parts = req.split(b"\r\n", 1)[0].split(b" ")
+    return parts[1].decode("utf-8", "replace") if len(parts) > 1 else ""
+
+
+def safe_untlv(b: bytes):
+    try:
+        return refacc.untlv(b)
+    except Exception:  # noqa: BLE001
+        return None
+
+
+def safe_json(b: bytes):
+    try:
+        return json.loads(b)
+    except ValueError:
+        return None
+
+
+async def json_entry_case(ctx, check, rig, host, secure, name, target, doc):
+    """HomeKitConnection.post_json / put_json(target, doc): one request, whose body is the compact encoding of the document
+    that was given - whatever the document (an empty or falsy one still has an encoding: `{}` is two bytes)"""
+    method = "POST" if name == "post_json" else "PUT"
+    case = {"stream": "json-entry", "entry": name, "host": host, "port": rig.port, "secure": secure, "target": target, "doc": json.dumps(doc)}
+    n0 = len(rig.requests)
+    try:
+        await getattr(rig.conn, name)(target, doc)
+    except Exception as e:  # noqa: BLE001
+        ctx.violation(f"request/{name}/raised", f"{name}({target!r}, {doc!r}) on {host} raised {type(e).__name__}: {e}", case)
+    new = rig.requests[n0:]
+    ctx.dist["json-entry:" + ("falsy-document" if not doc else "document")] += 1
+    if len(new) != 1:
+        ctx.evaluations += 1
+        ctx.violation(f"request/{name}/count", f"{name}({target!r}, {doc!r}) on {host}: {len(new)} requests reached the accessory", case)
+        return
+    check(name, host, secure, new[0][0], new[0][1], method, target, JSON_CT, ref_json(doc), case=case)
+
+
+async def tlv_entry_case(ctx, check, rig, host, secure, target, items):
+    """HomeKitConnection.post_tlv(target, items): one request whose body is the TLV8 encoding (reference encoder) of the items"""
+    case = {"stream": "tlv-entry", "host": host, "port": rig.port, "secure": secure, "target": target, "items": [[t, v.hex()] for t, v in items]}
+    n0 = len(rig.requests)
+    try:
+        await rig.conn.post_tlv(target, list(items))
+    except Exception as e:  # noqa: BLE001
+        ctx.violation("request/post_tlv/raised", f"post_tlv({target!r}, {len(items)} items) on {host} raised {type(e).__name__}: {e}", case)
+    new = rig.requests[n0:]
+    if len(new) != 1:
+        ctx.evaluations += 1
+        ctx.violation("request/post_tlv/count", f"post_tlv({target!r}, {len(items)} items) on {host}: {len(new)} requests reached the accessory", case)
+        return
+    check("post_tlv", host, secure, new[0][0], new[0][1], "POST", target, TLV_CT, refacc.tlv(items), case=case)
+
+
+def sub_payload_ok(body: bytes, ev: bool):
+    """a (un)subscribe body: compact JSON {"characteristics":[{"aid","iid","ev"}...]} with the right flag; returns the ids or None"""
+    d = safe_json(body)
+    if ws_outside_strings(body) or not isinstance(d, dict) or set(d) != {"characteristics"} or not isinstance(d["characteristics"], list):
+        return None
+    ids = []
+    for c in d["characteristics"]:
+        if not isinstance(c, dict) or set(c) != {"aid", "iid", "ev"} or c["ev"] is not ev:
+            return None
+        ids.append((c["aid"], c["iid"]))
+    return ids
+
+
+async def iterable_case(ctx, check, requests, p, host, secure, entry, kname, items, notes=None, port=80):
+    """one call of the pairing API with the ids / writes handed over as the given kind of Iterable.  The expectation is
+    built from `items`, the harness's own list: the request(s) must be what the equivalent list produces - every id /
+    value on the wire exactly once, nothing else, in canonical form.
+    `requests` is the accessory-side log: entries (decoded request bytes, transport calls[, encrypted?, peer])."""
+    _, mk, ordered, oneshot = next(k for k in KINDS if k[0] == kname)
+    items = [tuple(x) for x in items]
+    case = {"stream": "iterable", "entry": entry, "kind": kname, "host": host, "port": port, "secure": secure, "items": [list(x) for x in items]}
+    shown = repr(items)
+    what = f"{entry}(<{kname}> of {shown if len(shown) <= 240 else shown[:240] + '...'})"
+    n0 = len(requests)
+    try:
+        await getattr(p, entry)(mk(list(items)))
+    except Exception as e:  # noqa: BLE001
+        ctx.violation(f"request/{entry}/raised", f"{what} raised {type(e).__name__}: {e}", case)
+    new = list(requests[n0:])
+    ctx.evaluations += 1
+    ctx.dist[f"iterable:{kname}"] += 1
+    ctx.nontrivial.add(("iterable", entry, kname, secure))
+    for r in new:
+        if len(r) > 2 and r[2] != secure:
+            ctx.violation(f"request/{entry}/session", f"{what}: the request went out on the {'encrypted' if r[2] else 'plain'} connection", case)
+    if entry == "get_characteristics":
+        if len(new) != 1:
+            ctx.violation("request/ids", f"{what}: {len(new)} requests reached the accessory", case)
+            return
+        req, nc = new[0][0], new[0][1]
+        line = req.split(b"\r\n", 1)[0].decode("utf-8", "replace")
+        m = re.fullmatch(r"GET /characteristics\?id=([0-9]+\.[0-9]+(?:,[0-9]+\.[0-9]+)*) HTTP/1\.1", line)
+        got_ids = sorted(tuple(int(x) for x in t.split(".")) for t in m.group(1).split(",")) if m else None
+        if got_ids != sorted(set(items)):
+            ctx.violation("request/ids", f"{what}: read of {sorted(set(items))} rendered as {line!r}", case)
+        check("get_characteristics", host, secure, req, nc, "GET", target_of(req), None, None, to_model=False, case=case)
+    elif entry == "put_characteristics":
+        if len(new) != 1:
+            ctx.violation("request/write-payload", f"{what}: {len(new)} requests reached the accessory", case)
+            return
+        req, nc = new[0][0], new[0][1]
+        body = body_of(req)
+        want_entries = [{"aid": a, "iid": i, "value": v} for a, i, v in items]
+        want_body = ref_json({"characteristics": want_entries})
+        if ordered:
+            ok = body == want_body
+        else:
+            d = safe_json(body)
+            ok = (not ws_outside_strings(body) and isinstance(d, dict) and set(d) == {"characteristics"} and isinstance(d["characteristics"], list)
+                  and sorted(json.dumps(c, sort_keys=True) for c in d["characteristics"]) == sorted(json.dumps(c, sort_keys=True) for c in want_entries))
+        if not ok:
+            ctx.violation("request/write-payload", f"{what}: write payload {body[:150]!r} != compact {want_body[:150]!r}" + ("" if ordered else " (in any order)"), case)
+        check("put_characteristics", host, secure, req, nc, "PUT", "/characteristics", JSON_CT, want_body if ordered else body, to_model=ordered, case=case)
+    else:
+        ev = entry == "subscribe"
+        seen = []
+        for r in new:
+            req, nc = r[0], r[1]
+            body = body_of(req)
+            ids = sub_payload_ok(body, ev)
+            if ids is None:
+                ctx.violation("request/subscribe-payload", f"{what}: payload {body[:150]!r}", case)
+            else:
+                seen += ids
+            check(entry, host, secure, req, nc, "PUT", "/characteristics", JSON_CT, body, to_model=False, case=case)
+        if oneshot:
+            # what the unchanged library does with a one-pass iterable here is recorded, not judged (see the note); still,
+            # nothing but the ids asked for may be written, and none twice
+            if len(seen) != len(set(seen)) or not set(seen) <= set(items):
+                ctx.violation("request/subscribe-ids", f"{what} put {seen} on the wire in {len(new)} request(s)", case)
+            elif sorted(seen) != sorted(set(items)):
+                ctx.dist[f"observed:{entry}:one-pass-iterable:ids-not-written"] += 1
+                if notes is not None and entry not in notes:
+                    notes.add(entry)
+                    ctx.notes.append(f"observed on this tree, not judged: {what} wrote {seen} - {entry}() walks its argument more than once, so a one-pass iterable "
+                                     f"(generator, iter(), map, zip ...) registers nothing with the accessory although AbstractPairing.{entry} is typed Iterable; "
+                                     "re-iterable arguments are checked strictly")
+            else:
+                ctx.dist[f"observed:{entry}:one-pass-iterable:ids-written"] += 1
+        elif sorted(seen) != sorted(set(items)):
+            missing = sorted(set(items) - set(seen))
+            ctx.violation("request/subscribe-ids", f"{what} put {seen} on the wire in {len(new)} request(s)" + (f"; never written: {missing}" if missing else ""), case)
+
+
+class Tap:
+    """sits between simnet and the scaffold accessory (harness.acc): records every request the accessory decodes as
+    (plaintext request bytes, transport calls it arrived in, encrypted session?, peer address)"""
+
+    def __init__(self, acc, net):
+        self.requests = []
+        self._seen = {}
+        self._pcalls = {}
+        inner = acc._take_request
+
+        def take(s):
+            before = s.buf
+            r = inner(s)
+            if r is not None:
+                self.requests.append((before[:len(before) - len(s.buf)], self._pcalls.get(s.t, 0), s.secure, s.t.host))
+                self._pcalls[s.t] = 0
+            return r
+        acc._take_request = take
+
+        def on_write(t, data):
+            self._pcalls[t] = self._pcalls.get(t, 0) + len(t.calls) - self._seen.get(t, 0)
+            self._seen[t] = len(t.calls)
+            acc.on_write(t, data)
+        net.handler = on_write
+
+
+class SetupPeer:
+    """a conformant accessory for pair-setup M1..M6, written from HAP 5.6 with harness.refacc (nothing from aiohomekit)"""
+
+    def __init__(self, pin, ident, rb):
+        self.pin, self.id, self.rb = pin, ident, rb
+
+    def handle(self, d):
+        st = d.get(6)
+        if st == b"\x01":
+            self.salt = self.rb(16)
+            self.srv = refacc.SrpServer(self.pin, self.salt, int.from_bytes(self.rb(32), "big"))
+            return [(6, b"\x02"), (3, refacc.PAD(self.srv.B)), (2, self.salt)]
+        if st == b"\x03":
+            self.srv.on_A(d[3])
+            if d.get(4) != self.srv.M1:
+                return [(6, b"\x04"), (7, b"\x02")]
+            return [(6, b"\x04"), (4, self.srv.M2)]
+        if st == b"\x05":
+            K = self.srv.K
+            ekey = refacc.hk(K, b"Pair-Setup-Encrypt-Salt", b"Pair-Setup-Encrypt-Info")
+            try:
+                sub = refacc.untlv(ChaCha20Poly1305(ekey).decrypt(b"\0\0\0\0PS-Msg05", d[5], b""))
+                cx = refacc.hk(K, b"Pair-Setup-Controller-Sign-Salt", b"Pair-Setup-Controller-Sign-Info")
+                ed25519.Ed25519PublicKey.from_public_bytes(sub[3]).verify(sub[10], cx + sub[1] + sub[3])
+            except Exception:  # noqa: BLE001
+                return [(6, b"\x06"), (7, b"\x02")]
+            ax = refacc.hk(K, b"Pair-Setup-Accessory-Sign-Salt", b"Pair-Setup-Accessory-Sign-Info")
+            sig = self.id.acc_ltsk.sign(ax + self.id.acc_id + self.id.acc_ltpk)
+            enc = ChaCha20Poly1305(ekey).encrypt(b"\0\0\0\0PS-Msg06", refacc.tlv([(1, self.id.acc_id), (3, self.id.acc_ltpk), (10, sig)]), b"")
+            return [(6, b"\x06"), (5, enc)]
+        return [(6, b"\x02"), (7, b"\x01")]
+
+
+async def endtoend_case(ctx, check, loop, host, seed, notes=None, port=80):
+    """the public objects, constructed the public way, against a reference accessory on the simulated network:
+    IpPairing(controller, pairing_data) with its SecureHomeKitConnection (pair-verify in the clear, everything else over
+    the session, re-subscription after a reconnect) and IpDiscovery(controller, description) (unpaired identify,
+    pair-setup).  Every request the accessory decodes must be in the canonical form, on the right connection, in one
+    transport call - including the ones the library issues on its own."""
+    import random
+    rnd = random.Random(seed)
+
+    def rb(n):
+        return bytes(rnd.randrange(256) for _ in range(n))
+    case = {"stream": "endtoend", "host": host, "port": port, "seed": seed}
+    layout = {1: [10, 11, 12], 2: [20, 21], 3: [30]}
+    allids = [(a, i) for a, iids in layout.items() for i in iids]
+    acclist = accessory_list(layout)
+    net = simnet.Net(loop)
+    acc = Accessory(loop, net, rb, accessories=acclist)
+    tap = Tap(acc, net)
+    setup = SetupPeer("031-45-154", acc.ident, rb)
+
+    def reply(s, method, target, body):
+        if target == "/pair-setup":
+            return http(refacc.tlv(setup.handle(safe_untlv(body) or {})), TLV_CT.encode())
+        if target == "/pairings":
+            return http(PAIRINGS_REPLY, TLV_CT.encode())
+        if target == "/identify" or method == "PUT":
+            return b"HTTP/1.1 204 No Content\r\n\r\n"
+        if target.startswith("/accessories"):
+            return http(json.dumps({"accessories": acclist}).encode())
+        if target.startswith("/characteristics"):
+            return http(b'{"characteristics":[]}')
+        if target == "/resource":
+            return http(b"\xff\xd8jpeg", b"image/jpeg")
+        return http(b"{}")
+    acc.responder = reply
+    ctrl = MagicMock()
+    ctrl._char_cache = CharacteristicCacheMemory()
+    ctrl.pairings = {}
+    mark = [0]
+
+    def fresh():
+        r = tap.requests[mark[0]:]
+        mark[0] = len(tap.requests)
+        return r
+
+    def got(step, kind, n):
+        r = fresh()
+        if len(r) != n:
+            ctx.evaluations += 1
+            ctx.violation(f"request/{kind}/count", f"{step} on {host}: {len(r)} request(s) reached the accessory, {n} expected: {[x[0][:70] for x in r]}", dict(case, step=step))
+        return r
+
+    def canonical(step, kind, r, secure, method, target, ctype, body):
+        raw, nc, sec, peer = r
+        if sec != secure:
+            ctx.violation(f"request/{kind}/session", f"{step}: {raw[:70]!r} went out on the {'encrypted' if sec else 'plain'} connection", dict(case, step=step))
+        check(kind, peer, sec, raw, nc, method, target, ctype, body, case=dict(case, step=step))
+
+    def handshake(step, kind, reqs, target):
+        """requests of a pairing handshake (random keys: the body is taken from the wire, its TLV state is checked)"""
+        for k, r in enumerate(reqs):
+            body = body_of(r[0])
+            tl = safe_untlv(body)
+            if not body or tl is None or tl.get(6) != bytes([2 * k + 1]):
+                ctx.violation(f"request/{kind}/body", f"{step}: request {k + 1} of the exchange carries {body[:60]!r} (state {2 * k + 1} expected)", dict(case, step=step))
+            canonical(step, kind, r, False, "POST", target, TLV_CT, body)
+
+    async def guard(step, coro):
+        try:
+            return await coro
+        except Exception as e:  # noqa: BLE001
+            ctx.violation("request/endtoend/raised", f"{step} on {host} raised {type(e).__name__}: {e}", dict(case, step=step))
+            return None
+
+    with net.patched():
+        # ---------------- a paired accessory
+        p = IpPairing(ctrl, acc.pairing_data([host], port))
+        step = "first use: connect, pair-verify, GET /accessories"
+        await guard(step, p.list_accessories_and_characteristics())
+        r = got(step, "pair-verify", 3)
+        if len(r) == 3:
+            handshake(step, "pair-verify", r[:2], "/pair-verify")
+            canonical(step, "list_accessories", r[2], True, "GET", "/accessories", None, None)
+        step = "async_populate_accessories_state(force_update=True)"
+        await guard(step, p.async_populate_accessories_state(force_update=True))
+        for x in got(step, "populate", 1)[:1]:
+            canonical(step, "populate", x, True, "GET", "/accessories", None, None)
+        step = "get_primary_name"
+        name = await guard(step, p.get_primary_name())
+        fresh()
+        ctx.dist[f"endtoend:get_primary_name={name!r}"] += 1
+        # the four id-taking entry points, each with a few kinds of Iterable (all kinds over the hosts and seeds)
+        kinds = [k[0] for k in KINDS]
+        for entry in ("get_characteristics", "put_characteristics", "subscribe", "unsubscribe"):
+            for kname in rnd.sample(kinds, 3):
+                ids = rnd.sample(allids, rnd.randint(1, len(allids)))
+                items = [(a, i, rnd.choice(WRITE_VALUES)) for a, i in ids] if entry == "put_characteristics" else ids
+                await iterable_case(ctx, check, tap.requests, p, host, True, entry, kname, items, notes, port)
+                if entry == "subscribe":
+                    await iterable_case(ctx, check, tap.requests, p, host, True, "unsubscribe", "list", ids, notes, port)
+                fresh()
+        step = "identify"
+        await guard(step, p.identify())
+        for x in got(step, "identify", 1)[:1]:
+            d = safe_json(body_of(x[0]))
+            try:
+                aid = d["characteristics"][0]["aid"]
+            except (TypeError, KeyError, IndexError):
+                aid = None
+            if aid not in layout:
+                ctx.violation("request/identify-payload", f"identify() wrote {body_of(x[0])[:120]!r}", dict(case, step=step))
+                aid = 1
+            canonical(step, "identify", x, True, "PUT", "/characteristics", JSON_CT, ref_json({"characteristics": [{"aid": aid, "iid": 2, "value": True}]}))
+        step = "image"
+        w, h = rnd.choice([(640, 480), (1920, 1080), (0, 0), (1, 1)])
+        await guard(step, p.image(2, w, h))
+        for x in got(step, "image", 1)[:1]:
+            body = body_of(x[0])
+            if ws_outside_strings(body) or safe_json(body) != {"aid": 2, "resource-type": "image", "image-width": w, "image-height": h}:
+                ctx.violation("request/image-payload", f"snapshot payload {body[:150]!r}", dict(case, step=step))
+            canonical(step, "image", x, True, "POST", "/resource", JSON_CT, body)
+        # pairing management: TLV bodies written out from HAP 5.10-5.12 (State=M1, Method, Identifier, PublicKey, Permissions)
+        other_id = rnd.choice(["other", "0A:1B:2C:3D:4E:5F", "c" * 36])
+        other_pk = rb(32)
+        for step, coro, items in (
+                ("list_pairings", lambda: p.list_pairings(), [(6, b"\x01"), (0, b"\x05")]),
+                ("add_pairing(User)", lambda: p.add_pairing(other_id, other_pk.hex(), "User"), [(6, b"\x01"), (0, b"\x03"), (1, other_id.encode()), (3, other_pk), (11, b"\x00")]),
+                ("add_pairing(Admin)", lambda: p.add_pairing(other_id, other_pk.hex(), "Admin"), [(6, b"\x01"), (0, b"\x03"), (1, other_id.encode()), (3, other_pk), (11, b"\x01")]),
+                ("remove_pairing(other)", lambda: p.remove_pairing(other_id), [(6, b"\x01"), (0, b"\x04"), (1, other_id.encode())])):
+            await guard(step, coro())
+            kind = step.split("(")[0]
+            for x in got(step, kind, 1)[:1]:
+                canonical(step, kind, x, True, "POST", "/pairings", TLV_CT, refacc.tlv(items))
+        # the accessory drops the connection: the library re-connects, verifies again and re-registers the subscriptions on its own
+        subs = rnd.sample(allids, rnd.randint(1, 4))
+        await guard("subscribe", p.subscribe(list(subs)))
+        fresh()
+        step = "accessory closed the connection; re-connect and re-subscribe"
+        if net.open:
+            net.open[-1].peer_close()
+        await asyncio.sleep(40)
+        await guard(step, p.get_characteristics([allids[0]]))
+        r = fresh()
+        plain = [x for x in r if x[0].startswith(b"POST /pair-verify ")]
+        rest = [x for x in r if not x[0].startswith(b"POST /pair-verify ")]
+        if len(plain) != 2 or not rest:
+            ctx.notes.append(f"endtoend {host}: after the drop {len(plain)} pair-verify and {len(rest)} other requests were seen")
+        handshake(step, "pair-verify", plain[:2], "/pair-verify")
+        seen = []
+        for x in rest:
+            tgt = target_of(x[0])
+            if x[0].startswith(b"PUT "):
+                body = body_of(x[0])
+                ids = sub_payload_ok(body, True)
+                if ids is None:
+                    ctx.violation("request/subscribe-payload", f"{step}: payload {body[:150]!r}", dict(case, step=step))
+                else:
+                    seen += ids
+                canonical(step, "resubscribe", x, True, "PUT", "/characteristics", JSON_CT, body)
+            else:
+                canonical(step, "get_characteristics", x, True, "GET", tgt, None, None)
+        if len(seen) != len(set(seen)) or not set(seen) <= set(subs):
+            ctx.violation("request/subscribe-ids", f"{step}: subscribed to {sorted(subs)}, the new session registered {seen}", dict(case, step=step))
+        ctx.dist["endtoend:resubscribed-all" if sorted(seen) == sorted(subs) else "endtoend:resubscribed-some"] += 1
+        step = "remove_pairing(own id)"
+        await guard(step, p.remove_pairing(acc.ident.ios_id))
+        for x in got(step, "remove_pairing", 1)[:1]:
+            canonical(step, "remove_pairing", x, True, "POST", "/pairings", TLV_CT, refacc.tlv([(6, b"\x01"), (0, b"\x04"), (1, acc.ident.ios_id.encode())]))
+        await guard("close", p.close())
+        fresh()
+        # ---------------- an unpaired accessory
+        desc = HomeKitService(name="acc", id="12:34:56:00:01:0A", model="m", feature_flags=FeatureFlags(0), status_flags=StatusFlags(1), config_num=1, state_num=1,
+                              category=Categories.LIGHTBULB, protocol_version="1.1", type="_hap._tcp.local.", address=host, addresses=[host], port=port)
+        d = IpDiscovery(ctrl, desc)
+        step = "IpDiscovery.async_identify"
+        await guard(step, d.async_identify())
+        for x in got(step, "async_identify", 1)[:1]:
+            canonical(step, "async_identify", x, False, "POST", "/identify", JSON_CT, b"{}")
+        step = "IpDiscovery.async_start_pairing"
+        finish = await guard(step, d.async_start_pairing("alias"))
+        r1 = got(step, "pair-setup", 1)
+        r2 = []
+        if finish is not None:
+            step = "finish_pairing"
+            newp = await guard(step, finish(setup.pin))
+            r2 = got(step, "pair-setup", 2)
+            if newp is not None:
+                await guard("close", newp.close())
+        if len(r1) == 1 and len(r2) == 2:
+            handshake("IpDiscovery pair-setup M1/M3/M5", "pair-setup", r1 + r2, "/pair-setup")
+        await guard("close", d.close())
+    ctx.nontrivial.add(("endtoend", ":" in host, "%" in host))
+
+
+def run(ctx: Ctx, driver: Driver):
+    rng = ctx.rng
+    loop = simnet.VLoop()
+    asyncio.set_event_loop(loop)
+    for c in load_corpus(ID):
+        pass
+    cases, outs, lines = [], [], []
+
+    check = make_check(ctx, cases, outs, lines)
+    noted = set()
+
+    async def scenario(host, secure, port=80):
+        rig = Rig(loop, host, secure, port)
         rig.responder = responder
         conn = await rig.connect()
+        check.port = port
 
         def last():
             return rig.requests[-1]
@@ -258,10 +761,41 @@ def run(ctx: Ctx, driver: Driver):
             check("post", host, secure, *last(), "POST", "/pair-setup", "application/pairing+tlv8", body)
             await conn.put("/resource", body, content_type=HttpContentTypes.TLV)
             check("put-tlv", host, secure, *last(), "PUT", "/resource", "application/pairing+tlv8", body)
+        # ---- request() itself, the way get/put/post call it
+        for target in ("/accessories", "/characteristics?id=1.10,2.20"):
+            await conn.request("GET", target)
+            check("request-get", host, secure, *last(), "GET", target, None, None)
+        for method, target, ct in (("PUT", "/characteristics", JSON_CT), ("POST", "/resource", JSON_CT), ("POST", "/pairings", TLV_CT)):
+            body = ref_json(rand_json(rng)) if ct == JSON_CT else refacc.tlv([(6, b"\x01"), (0, b"\x05")])
+            await conn.request(method, target, headers=[("Content-Length", len(body)), ("Content-Type", ct)], body=body)
+            check("request-body", host, secure, *last(), method, target, ct, body)
+        # ---- the JSON / TLV entry points of the connection, the document itself being the input: empty and falsy documents first
+        docs = list(SMALL_DOCS) + [rand_json(rng) for _ in range(ctx.budget(6, 60))]
+        for k, doc in enumerate(docs):
+            await json_entry_case(ctx, check, rig, host, secure, "post_json", ("/identify", "/resource", "/characteristics")[k % 3], doc)
+            await json_entry_case(ctx, check, rig, host, secure, "put_json", ("/characteristics", "/resource")[k % 2], doc)
+        for k in range(ctx.budget(4, 30)):
+            items = [(6, b"\x01"), (0, bytes([rng.randrange(6)]))] + [(rng.choice([1, 3, 5, 10, 11]), bytes(rng.randrange(256) for _ in range(rng.choice([1, 32, 64, 255, 256, 510, 700]))))
+                                                                      for _ in range(rng.randint(0, 3))]
+            await tlv_entry_case(ctx, check, rig, host, secure, ("/pairings", "/pair-setup", "/pair-verify")[k % 3], items)
         # ---- pairing API
         layout = {1: [10, 11, 12, 13], 2: [20, 21, 22, 23]}
         p = mk_pairing(conn, layout)
         allids = [(a, i) for a, iids in layout.items() for i in iids]
+        # every kind of Iterable the signatures admit, on every id-taking entry point
+        for kname, _, _, _ in KINDS:
+            for _ in range(ctx.budget(1, 4)):
+                ids = rng.sample(allids, rng.randint(1, 8))
+                if rng.random() < 0.3:
+                    ids += rng.sample(ids, rng.randint(1, len(ids)))  # an id asked for twice is still read once
+                await iterable_case(ctx, check, rig.requests, p, host, secure, "get_characteristics", kname, ids, noted, port)
+                ids = rng.sample(allids, rng.randint(1, 6))
+                await iterable_case(ctx, check, rig.requests, p, host, secure, "put_characteristics", kname, [(a, i, rng.choice(WRITE_VALUES)) for a, i in ids], noted, port)
+                ids = rng.sample(allids, rng.randint(1, 8))
+                await iterable_case(ctx, check, rig.requests, p, host, secure, "subscribe", kname, ids, noted, port)
+                await iterable_case(ctx, check, rig.requests, p, host, secure, "unsubscribe", kname, ids, noted, port)
+                # leave nothing registered, whatever the call above did with its argument
+                await p.unsubscribe(list(ids))
         for _ in range(ctx.budget(6, 40)):
             ids = rng.sample(allids, rng.randint(1, 8))
             await p.get_characteristics(ids)
@@ -404,14 +938,33 @@ def run(ctx: Ctx, driver: Driver):
                 conn.closed = False
         await conn.close()
 
-    for host in HOSTS:
+    def drive(coro, what, case):
+        """an exception escaping a scenario is the library misbehaving on a valid input: reported with the input, not a harness crash"""
+        try:
+            loop.run_until_complete(coro)
+        except Exception as e:  # noqa: BLE001
+            tb = traceback.extract_tb(e.__traceback__)
+            where = next((f"{f.filename}:{f.lineno}" for f in reversed(tb) if "/aiohomekit/" in f.filename), f"{tb[-1].filename}:{tb[-1].lineno}")
+            ctx.violation("request/scenario/raised", f"{what}: {type(e).__name__}: {e} (at {where})", case)
+
+    ports = [80, 51827, 8080, 80, 443, 80, 49152, 80, 80, 5001]  # the port never shows in the Host header, whatever it is
+    for hi, host in enumerate(HOSTS):
         for secure in (False, True):
-            loop.run_until_complete(scenario(host, secure))
-    loop.run_until_complete(scenario_subscriptions(HOSTS[0]))
+            port = ports[(2 * hi + secure) % len(ports)]
+            ctx.dist[f"port:{'80' if port == 80 else 'other'}"] += 1
+            drive(scenario(host, secure, port), f"entry points on {host} port {port} ({'encrypted' if secure else 'plain'})", {"stream": "scenario", "host": host, "port": port, "secure": secure})
+    check.port = 80
+    drive(scenario_subscriptions(HOSTS[0]), "subscription id lists", {"stream": "scenario", "name": "subscriptions", "host": HOSTS[0]})
     for host_a in HOSTS:
         for host_b in HOSTS:
             if host_a != host_b:
-                loop.run_until_complete(scenario_reconnect(host_a, host_b, secure=(HOSTS.index(host_a) + HOSTS.index(host_b)) % 2 == 1))
+                secure = (HOSTS.index(host_a) + HOSTS.index(host_b)) % 2 == 1
+                drive(scenario_reconnect(host_a, host_b, secure=secure), f"reconnect {host_a} -> {host_b}", {"stream": "scenario", "name": "reconnect", "hosts": [host_a, host_b], "secure": secure})
+    for host in HOSTS:
+        for _ in range(ctx.budget(1, 6)):
+            seed = rng.randrange(2 ** 32)
+            port = rng.choice([80, 80, 51827, 8080, 32768])
+            drive(endtoend_case(ctx, check, loop, host, seed, noted, port), f"end to end on {host} port {port} (seed {seed})", {"stream": "endtoend", "host": host, "port": port, "seed": seed})
     ctx.sample(cases[1])
     ctx.sample(cases[-1])
     compare_with_model(ctx, "request", cases, outs, lines, driver)
@@ -427,4 +980,60 @@ def run(ctx: Ctx, driver: Driver):
 
 
 def replay(ctx, driver, c):
-    return None
+    """re-run one recorded case on the current tree; returns what it reproduces (None: nothing / not a replayable stream)"""
+    stream = c.get("stream")
+    host, secure, port = c.get("host", HOSTS[0]), bool(c.get("secure")), c.get("port", 80)
+    loop = simnet.VLoop()
+    asyncio.set_event_loop(loop)
+    rctx = Ctx(ID, "quick", 0)
+    check = make_check(rctx, [], [], [])
+
+    async def on_rig(fn):
+        rig = Rig(loop, host, secure, port)
+        rig.responder = responder
+        await rig.connect()
+        try:
+            await fn(rig)
+        finally:
+            await rig.conn.close()
+
+    def pairing_for(rig, items):
+        layout = {}
+        for it in items:
+            layout.setdefault(it[0], []).append(it[1])
+        return mk_pairing(rig.conn, {a: sorted(set(i)) for a, i in layout.items()})
+
+    async def go():
+        if stream == "json-entry":
+            await on_rig(lambda rig: json_entry_case(rctx, check, rig, host, secure, c["entry"], c["target"], json.loads(c["doc"])))
+        elif stream == "tlv-entry":
+            await on_rig(lambda rig: tlv_entry_case(rctx, check, rig, host, secure, c["target"], [(t, bytes.fromhex(v)) for t, v in c["items"]]))
+        elif stream == "iterable":
+            await on_rig(lambda rig: iterable_case(rctx, check, rig.requests, pairing_for(rig, c["items"]), host, secure, c["entry"], c["kind"], c["items"], None, port))
+        elif stream == "ids":
+            await on_rig(lambda rig: iterable_case(rctx, check, rig.requests, pairing_for(rig, c["ids"]), host, secure, "get_characteristics", "list", c["ids"]))
+        elif stream == "payload" and "vals" in c:
+            await on_rig(lambda rig: iterable_case(rctx, check, rig.requests, pairing_for(rig, c["vals"]), host, secure, "put_characteristics", "list", c["vals"]))
+        elif stream == "payload" and "ids" in c:
+            await on_rig(lambda rig: iterable_case(rctx, check, rig.requests, pairing_for(rig, c["ids"]), host, secure, "subscribe" if c.get("ev") else "unsubscribe", "list", c["ids"]))
+        elif stream == "endtoend" and "seed" in c:
+            await endtoend_case(rctx, check, loop, host, c["seed"], None, port)
+        elif stream == "request" and c.get("kind") in ("get", "put", "post", "put-tlv", "request-get", "request-body"):
+            async def raw(rig):
+                body = None if c.get("body") is None else (b"" if c["body"] == "-" else bytes.fromhex(c["body"]))
+                if body is None:
+                    await rig.conn.get(c["target"])
+                    check(c["kind"], host, secure, *rig.requests[-1], "GET", c["target"], None, None, to_model=False)
+                else:
+                    tlv_ct = c["kind"] in ("post", "put-tlv")
+                    await (rig.conn.post if c["method"] == "POST" else rig.conn.put)(c["target"], body, content_type=HttpContentTypes.TLV if tlv_ct else HttpContentTypes.JSON)
+                    check(c["kind"], host, secure, *rig.requests[-1], c["method"], c["target"], TLV_CT if tlv_ct else JSON_CT, body, to_model=False)
+            if c.get("kind") != "request-body":
+                await on_rig(raw)
+    try:
+        loop.run_until_complete(go())
+    except Exception as e:  # noqa: BLE001
+        rctx.violation("request/replay/raised", f"{type(e).__name__}: {e}", c)
+    finally:
+        loop.close()
+    return [{"signature": v["signature"], "what": v["what"][:400]} for v in rctx.violations] or None
